@@ -53,17 +53,54 @@ def run_live(ctx, plan):
             try:
                 cj = os.path.join(d, 'cfg.json')
                 out = os.path.join(d, 'trace.ndjson')
-                with open(cj, 'w') as f:
-                    json.dump({'Power': cfg.power, 'Byz': cfg.byz, 'MaxRound': cfg.max_round, 'Heights': heights,
-                               'Seed': seed, 'LimitMs': 60000, 'ByzActive': bool(getattr(cfg, 'byz_active', False)),
-                               'Scale': getattr(cfg, 'scale', 0), 'Stack': bool(getattr(cfg, 'stack', False))}, f)
-                p = subprocess.run([os.path.join(engine.HARNESS, engine.BIN, 'csim'), 'live', cj, out],
-                                   stdout=subprocess.PIPE, stderr=subprocess.PIPE, text=True, errors='replace',
-                                   timeout=300, env=engine.GOENV)
+                stack = bool(getattr(cfg, 'stack', False))
+
+                def attempt(limit_ms):
+                    with open(cj, 'w') as f:
+                        json.dump({'Power': cfg.power, 'Byz': cfg.byz, 'MaxRound': cfg.max_round, 'Heights': heights,
+                                   'Seed': seed, 'LimitMs': limit_ms, 'ByzActive': bool(getattr(cfg, 'byz_active', False)),
+                                   'Scale': getattr(cfg, 'scale', 0), 'Stack': stack,
+                                   'Laggard': getattr(cfg, 'laggard', 0), 'LagUntil': getattr(cfg, 'lag_until', 0),
+                                   'StopNode': getattr(cfg, 'stop_node', 0)}, f)
+                    return subprocess.run([os.path.join(engine.HARNESS, engine.BIN, 'csim'), 'live', cj, out],
+                                          stdout=subprocess.PIPE, stderr=subprocess.PIPE, text=True, errors='replace',
+                                          timeout=limit_ms / 1000 + 240, env=engine.GOENV)
+
+                # A fault-free run of the real stack (all validators honest or absent ones below 1/3, reliable pipes) must
+                # commit: that IS the property (C12). A run that does not is repeated twice with 2x and 4x the time
+                # (20x..80x the normal duration); only the unanimous outcome is a verdict.
+                limits = [60000, 120000, 240000] if stack else [60000]
+                p = res = None
+                outcomes = []
+                for lm in limits:
+                    p = attempt(lm)
+                    if p.returncode != 0:
+                        outcomes.append('died: ' + (p.stderr or '')[-1500:])
+                        res = None
+                        continue
+                    res = json.loads(p.stdout.strip().splitlines()[-1])
+                    if res.get('error'):
+                        outcomes.append('no progress: ' + res['error'])
+                        continue
+                    break
+                if len(outcomes) > 0:
+                    ctx.cov['live_retries'] = ctx.cov.get('live_retries', 0) + len(outcomes)
+                if stack and len(outcomes) == len(limits):
+                    kinds = set(o.split(':')[0] for o in outcomes)
+                    if kinds == {'no progress'} or (kinds == {'died'} and all('panic' in o for o in outcomes)):
+                        kind = 'no-progress' if kinds == {'no progress'} else 'panic'
+                        total += 1
+                        ctx.failures.append({'key': 'live-stack:%s:%s' % (kind, cfg.name), 'property': True, 'kind': 'liveness',
+                                             'detail': 'real reactors on real switches (%s, no message touched by the harness): %d of %d '
+                                                       'attempts with limits %s ms ended the same way: %s'
+                                                       % (cfg.name, len(outcomes), len(limits), limits, outcomes[-1][-1200:]),
+                                             'engine': 'csim-live', 'replay': None})
+                    else:
+                        ctx.inconclusive.append('full-stack run %s: mixed outcomes %s' % (cfg.name, [o[:80] for o in outcomes]))
+                    continue
                 if p.returncode != 0:
                     ctx.inconclusive.append('csim live died: ' + (p.stderr or '')[-500:])
                     continue
-                res = json.loads(p.stdout.strip().splitlines()[-1])
                 total += 1
                 if res.get('agreement'):
                     ctx.failures.append({'key': 'Agreement', 'property': True, 'kind': 'property', 'detail': res['agreement'],
